@@ -1102,6 +1102,9 @@ class XmlDocument(SubXmlBase):
 
                 inst._safe_set(xtba_key, value, xtba_type.type, xtba_attrs)
 
+                # the tag body is there whenever the tag is.
+                frequencies[xtba_key] += 1
+
         # values of the members that can occur more than once
         repeated = {}
 
